@@ -127,6 +127,11 @@ func c18CertDiff(a, b *certs.Certificate) (string, string) {
 		if x.Type != y.Type || !bytes.Equal(x.Label, y.Label) {
 			return "DelegateCert.IDChunk", fmt.Sprintf("name %d: type %d/%d bytes vs type %d/%d bytes", i, x.Type, len(x.Label), y.Type, len(y.Label))
 		}
+		// certs.Name.IsZero: "When Label is []byte{} (0-length, non-nil), it does not count as zero" - an explicitly
+		// empty name and the zero Name are different values although bytes.Equal cannot tell their labels apart
+		if x.IsZero() != y.IsZero() {
+			return "DelegateCert.IDChunk:IsZero", fmt.Sprintf("name %d: IsZero %v (label nil: %v) vs IsZero %v (label nil: %v)", i, x.IsZero(), x.Label == nil, y.IsZero(), y.Label == nil)
+		}
 	}
 	return "", ""
 }
@@ -146,6 +151,9 @@ func c18IntentDiff(a, b *Intent) (string, string) {
 		return "ExpTime", fmt.Sprintf("%d vs %d", a.ExpTime.Unix(), b.ExpTime.Unix())
 	case a.TargetSNI.Type != b.TargetSNI.Type || !bytes.Equal(a.TargetSNI.Label, b.TargetSNI.Label):
 		return "TargetSNI", fmt.Sprintf("type %d/%d bytes vs type %d/%d bytes", a.TargetSNI.Type, len(a.TargetSNI.Label), b.TargetSNI.Type, len(b.TargetSNI.Label))
+	case a.TargetSNI.IsZero() != b.TargetSNI.IsZero():
+		// the explicitly empty raw name (non-nil zero-length label) is documented not to be the zero Name
+		return "TargetSNI:IsZero", fmt.Sprintf("IsZero %v (label nil: %v) vs IsZero %v (label nil: %v)", a.TargetSNI.IsZero(), a.TargetSNI.Label == nil, b.TargetSNI.IsZero(), b.TargetSNI.Label == nil)
 	case a.TargetUsername != b.TargetUsername:
 		return "TargetUsername", fmt.Sprintf("%d bytes vs %d bytes", len(a.TargetUsername), len(b.TargetUsername))
 	}
